@@ -96,8 +96,11 @@ def scenarios(inputs, tier):
     return scs
 
 
+FAMILY_FILES = ['harness/wbfam.py', 'harness/wbrun.py', 'harness/tagfam.py', 'spec/WriteBack.tla', 'spec/WriteBackOps.tla', 'spec/WriteBackTrace.tla', 'spec/WriteBackTrace.cfg', 'spec/MC_WriteBack.cfg', 'spec/Mutant_WriteBack_NoChmod.cfg', 'spec/Mutant_WriteBack_InPlace.cfg']
+
+
 def collect(tier):
-    th = common.tree_hash()
+    th = common.tree_hash(FAMILY_FILES)
     key = "%s/wbfam_%s_%d" % (th, tier, common.seed())
     with common.Lock("wbfam_" + tier):
         cd = common.cache_dir(key)
